@@ -551,16 +551,17 @@ def fill_fields(r, m, full, path, local_m, local_e, earlier_m, earlier_e, ext_m,
             wanted.append(lambda: add_named("raw_page"))
     if r.maybe(0.12):
         def status_field():
-            # (an enum: a string / bool / other status field makes the generator raise, finding generation-crash:status-field-not-enum,
-            # replayed from the corpus)
-            if not local_e and not earlier_e:
-                return
-            extra = {"type": "enum", "ref": r.pick(local_e or earlier_e)}
-            for n in [r.pick(["status", "state"] * 5 + ["done"]), "status", "state", "op_status"]:
+            # enum / string / bool as the `done` helper of the template provides for; rarely another type (the helper then raises
+            # when CALLED; nothing of the property reads it)
+            kind = r.pick(["enum", "enum", "string", "bool", "string", "bool", "int32"])
+            extra = {"type": kind}
+            if kind == "enum":
+                extra = {"type": "enum", "ref": r.pick(local_e or earlier_e)} if (local_e or earlier_e) else {"type": "string"}
+            for n in [r.pick(["status", "state", "done"]), "status", "state", "op_status"]:
                 if add_named(n, card="single", opfield="STATUS", **extra):
                     return
         wanted.append(status_field)
-        if r.maybe(0.15):          # (finding descriptor:missing-field:done-property)
+        if r.maybe(0.6):
             wanted.append(lambda: add_named("done"))
     r.shuffle(wanted)
     inject = {}
@@ -688,11 +689,11 @@ def layout_spec():
 def helper_names_spec():
     """deterministic: fields named like the non-field members of a class body. `raw_page` (every cardinality and kind, top-level
     and nested) in messages that have `next_page_token` (the pager helper property of that name is printed) and in one that
-    has not; extended-operation status messages (the `done` helper is printed; enum status fields: a string / bool one is the
-    corpus input status_field_not_enum.json, finding generation-crash:status-field-not-enum); a
-    field `done` in a message WITHOUT status field; every name of proto-plus's class-level API as a field (not proto3
-    optional: finding class-api-shadowed:optional-field). The status message WITH a field `done` is the corpus input
-    status_message_with_done_field.json (finding descriptor:missing-field:done-property)."""
+    has not; extended-operation status messages (the `done` helper is printed) with enum / string / bool / other status fields, with
+    and without a field `done` (of every kind; also the STATUS field itself called `done`); a field `done` in a message WITHOUT
+    status field; every name of proto-plus's class-level API as a field (not proto3
+    optional: finding class-api-shadowed:optional-field). corpus/C02/status_message_with_done_field.json and
+    status_field_not_enum.json are the inputs of two defects repaired by 4ad018c / 1835642 (regression inputs)."""
     P = "acme.lib.v1"
 
     def msg(name, fields=(), messages=(), enums=(), oneofs=()):
@@ -723,9 +724,14 @@ def helper_names_spec():
         msg("ListPlain", [fld("items", 1, "string", "repeated"), npt]),                          # control: helper, no such field
         msg("EnumOp", [fld("name", 1, "string", opfield="NAME"), fld("status", 2, "enum", ref=f"{P}.State", opfield="STATUS"),
                        fld("raw_page", 3, "string"), fld("next_page_token", 4, "string")]),
-        msg("CodeOp", [fld("state", 1, "enum", ref=f"{P}.State", opfield="STATUS"), fld("error_code", 2, "int32", opfield="ERROR_CODE"),
-                       fld("error_message", 3, "string", opfield="ERROR_MESSAGE")],
+        msg("StringOp", [fld("state", 1, "string", opfield="STATUS"), fld("error_code", 2, "int32", opfield="ERROR_CODE"),
+                         fld("error_message", 3, "string", opfield="ERROR_MESSAGE"), fld("done", 4, "bytes", "repeated")]),
+        msg("BoolOp", [fld("done", 1, "bool", opfield="STATUS")],                          # the STATUS field itself is called done
             [msg("Done", [fld("done", 1, "string"), fld("raw_page", 2, "bool")])]),
+        msg("DoneOp", [fld("name", 1, "string", opfield="NAME"), fld("status", 2, "enum", ref=f"{P}.State", opfield="STATUS"),
+                       fld("done", 3, "bool"), fld("next_page_token", 4, "string"), fld("raw_page", 5, "message", "map", ref=f"{P}.DoneOp", key="string")],
+            [msg("Step", [fld("done", 1, "int64", "optional"), fld("state", 2, "enum", ref=f"{P}.State", opfield="STATUS")])]),
+        msg("OtherOp", [fld("progress", 1, "int32", opfield="STATUS"), fld("done", 2, "message", ref=f"{P}.DoneOp")]),
         msg("NotAnOp", [fld("done", 1, "bool"), fld("status", 2, "enum", ref=f"{P}.State"), fld("name", 3, "string", opfield="NAME")]),
         msg("ClassApi", [fld("pb", 1, "string"), fld("to_json", 2, "bytes"), fld("to_dict", 3, "int32", "repeated"),
                          fld("from_json", 4, "string", "oneof:how"), fld("serialize", 5, "message", ref=f"{P}.Snapshot"),
@@ -983,56 +989,6 @@ def has_status_field(m):
     return any(fl.get("opfield") == "STATUS" for fl in m["fields"])
 
 
-def done_shadowed(spec):
-    """full names of the messages in the shape of finding descriptor:missing-field:done-property: an extended-operation
-    status field AND a field whose attribute is `done` (the helper property printed after the fields replaces it)"""
-    out = {full for full, s in symbols(spec).items()
-           if s["kind"] == "message" and has_status_field(s["spec"]) and any(fl["name"] == "done" for fl in s["spec"]["fields"])}
-    return out | (done_shadowed(spec["dep"]) if spec.get("dep") else set())      # (the dependency library is generated the same way)
-
-
-def scrub_done(dyn, affected):
-    """clear the field `done` of every message of an `affected` type inside a valuation (known finding: the class has no
-    such field; the descriptor oracle reports it, the round trips exercise the rest of the message)"""
-    if dyn.DESCRIPTOR.full_name in affected:
-        dyn.ClearField("done")
-    for fd, val in dyn.ListFields():
-        if fd.message_type is None:
-            continue
-        if fd.message_type.GetOptions().map_entry:
-            if fd.message_type.fields_by_name["value"].message_type is not None:
-                for k in val:
-                    scrub_done(val[k], affected)
-        elif fd.label == fd.LABEL_REPEATED:
-            for x in val:
-                scrub_done(x, affected)
-        else:
-            scrub_done(val, affected)
-
-
-def strip_done_json(desc, j, affected):
-    """the same on protobuf's JSON of a valuation (which prints implicit-presence fields at their default)"""
-    if not isinstance(j, dict) or desc.full_name in rpc.WKT_SAMPLES or desc.full_name.startswith("google.protobuf."):
-        return j
-    if desc.full_name in affected:
-        j.pop("done", None)
-    for fd in desc.fields:
-        v = j.get(fd.json_name)
-        if v is None or fd.message_type is None:
-            continue
-        if fd.message_type.GetOptions().map_entry:
-            vt = fd.message_type.fields_by_name["value"].message_type
-            if vt is not None:
-                for x in v.values():
-                    strip_done_json(vt, x, affected)
-        elif fd.label == fd.LABEL_REPEATED:
-            for x in v:
-                strip_done_json(fd.message_type, x, affected)
-        else:
-            strip_done_json(fd.message_type, v, affected)
-    return j
-
-
 def exec_order(top, path=()):
     """messages in the order their class bodies finish their nested classes and run their fields"""
     for n in top.get("messages", []):
@@ -1225,11 +1181,7 @@ def run_spec(ctx, r, spec, label, nvals=None):
     t2_schema(ctx, spec, api, files, payload)
     res, err = generate_from(api, opts)
     if err:
-        key = err[0]
-        if err[0].startswith("UndefinedError") and "_message.py.j2" in err[0] and re.search(r"'(str|bool)' is undefined", err[1]) and any(
-                fl.get("opfield") == "STATUS" and fl["type"] != "enum" for s_ in syms.values() if s_["kind"] == "message" for fl in s_["spec"]["fields"]):
-            key = "status-field-not-enum"        # the `done` helper of _message.py.j2 compares python_type with the undefined names str / bool
-        ctx.fail("generation-crash:" + key, f"generator raised {err[0]}: {err[1]}", payload)
+        ctx.fail("generation-crash:" + err[0], f"generator raised {err[0]}: {err[1]}", payload)
         return
     dep_res = None
     if dep_files:       # the dependency package is generated as a library of its own and installed next to the target one
@@ -1254,7 +1206,6 @@ def run_spec(ctx, r, spec, label, nvals=None):
         return
     codec = rpc.Codec(dep_files + files)
     nvals = nvals if nvals is not None else ctx.n(2, 4)
-    affected = done_shadowed(spec)
     trips = []
     vr = apigen.Rng(r.random(), "valuations")
     for full, s in syms.items():
@@ -1271,8 +1222,6 @@ def run_spec(ctx, r, spec, label, nvals=None):
         if z.ListFields():
             dyns.append(("zeros", z))
         for kind, dyn in dyns:
-            if affected:
-                scrub_done(dyn, affected)
             data = dyn.SerializeToString(deterministic=True)
             try:
                 lit = literal_of(spec, dyn)
@@ -1282,9 +1231,8 @@ def run_spec(ctx, r, spec, label, nvals=None):
             trips.append({"full": full, "kind": kind, "b64": base64.b64encode(data).decode(),
                           "json": json_format.MessageToJson(dyn, descriptor_pool=codec.pool), "value": codec.decode(full, data),
                           "literal": lit,
-                          "want_json": strip_done_json(dyn.DESCRIPTOR, json_format.MessageToDict(
-                              dyn, always_print_fields_with_no_presence=True, use_integers_for_enums=True,
-                              descriptor_pool=codec.pool), affected)})
+                          "want_json": json_format.MessageToDict(dyn, always_print_fields_with_no_presence=True,
+                                                                 use_integers_for_enums=True, descriptor_pool=codec.pool)})
     root = genrun.materialise(dep_res) if dep_res is not None else None
     root = genrun.materialise(res, root)
     try:
@@ -1420,7 +1368,7 @@ def compare(ctx, spec, syms, files, out, model, trips, codec, shadows, payload, 
         rt = dp.DescriptorProto.FromString(base64.b64decode(rec["desc"]))
         want = norm_input(by_full_input[full])
         got = norm_input(rt)
-        check_message(ctx, full, want, got, rt, shadow_set, payload, done_shape=full in done_shadowed(spec))
+        check_message(ctx, full, want, got, rt, shadow_set, payload)
         check_model(ctx, full, model_by_path.get(full), rt, payload)
     enum_fulls = sorted(want_enums & set(out["enums"]))
     enum_model = ask(ctx, [{"op": "c02.enum", "values": syms[full]["spec"]["values"]} for full in enum_fulls])
@@ -1497,15 +1445,11 @@ def _is_map_entry(rec):
     return dp.DescriptorProto.FromString(base64.b64decode(rec["desc"])).options.map_entry
 
 
-def check_message(ctx, full, want, got, rt, shadow_set, payload, done_shape=False):
+def check_message(ctx, full, want, got, rt, shadow_set, payload):
     """run-time descriptor ≅ input descriptor, aspect by aspect (keys name the aspect)"""
     wf, gf = want["fields"], got["fields"]
     for num in sorted(set(wf) - set(gf)):
-        known = done_shape and wf[num]["name"] == "done"
-        ctx.fail("descriptor:missing-field" + (":done-property" if known else ""),
-                 f"{full}: field {wf[num]['name']} = {num} is not declared by the class"
-                 + (" (an extended-operation status message: the `done` helper property, printed after the fields, replaces it)" if known else ""),
-                 payload)
+        ctx.fail("descriptor:missing-field", f"{full}: field {wf[num]['name']} = {num} is not declared by the class", payload)
     for num in sorted(set(gf) - set(wf)):
         ctx.fail("descriptor:extra-field", f"{full}: class declares {gf[num]['name']} = {num}, not in the input", payload)
     for num in sorted(set(wf) & set(gf)):
@@ -1904,8 +1848,7 @@ def run(ctx):
     ctx.assume("no field is named <reserved word>_ next to a field named <reserved word> (protoc rejects the JSON-name conflict)")
     ctx.assume("field names do not start with an underscore (legal for protoc; `_pb`, `_meta`, `__class__`, `__module__`, ... are the instance "
                "and class internals of proto-plus and Python: probed by hand, several of them break attribute assignment or the class itself)")
-    ctx.assume("extended-operation STATUS fields in the random cases are enums (a string / bool one is the corpus input of finding "
-               "generation-crash:status-field-not-enum); no random proto3-optional field is called like proto-plus's class-level API "
+    ctx.assume("no random proto3-optional field is called like proto-plus's class-level API "
                "(corpus input of finding class-api-shadowed:optional-field); every other kind of field with those names is generated")
     t2_tables(ctx)
     run_excluded(ctx)
@@ -1949,9 +1892,9 @@ CLAIM = dict(
           "manifest lists exactly the top-level classes; (6) the module header registers the types in the proto package of THEIR file, "
           "also for files of a sub-package of the API package, all modules sharing the API package's marshal (module_header_package, "
           "module_marshal_shared, module_types_full_name); (7) in the class body the template prints (nested classes, the raw_page helper, "
-          "the fields, the done helper; last binding of a name wins) a field keeps its declaration whatever it is called, in particular "
-          "raw_page, unless it is called done in an extended-operation status message (field_kept, raw_page_field_kept, kept_field_seen; "
-          "done_field_lost_counterexample = finding descriptor:missing-field:done-property). Tie: T1 bridge of RESERVED_NAMES and keyword.kwlist; T2 real Field.name, "
+          "the done helper, the fields; last binding of a name wins) a field keeps its declaration whatever it is called, in particular "
+          "raw_page or done: both helpers are printed before the fields (field_kept, raw_page_field_kept, done_field_kept_general, "
+          "kept_field_seen; done_field_kept = regression input of the defect repaired by 4ad018c). Tie: T1 bridge of RESERVED_NAMES and keyword.kwlist; T2 real Field.name, "
           "proto_type, Address.rel/__str__/module_alias/python_import, ToJsonName via DescriptorPool; T3 the run-time descriptor of "
           "EVERY emitted class (fresh interpreter) vs the model's predicted FieldDescriptorProtos; model-independent oracle: run-time "
           "descriptor = input descriptor aspect by aspect, two-way binary round trips and to_json/from_json against dynamic messages "
